@@ -118,10 +118,11 @@ Section RecInt.
       (if same then ru_mul (T 0) (L a) (L b) else ru_lmul (T 0) (L a) (L b)) ;;
       ru_modn r (L (T 0)) (K p).
 
+    (* sub (as repaired): const bool lt = (a < b); sub(r,a,b); if (lt) add(r,_p) *)
     Definition mr_sub (r a b : loc) : M unit :=
       c <- ru_lt (L a) (L b) ;;
-      if c then ru_sub r (K p) (L b) ;; ru_add r (L r) (L a)
-      else ru_sub r (L a) (L b).
+      ru_sub r (L a) (L b) ;;
+      when c (ru_add r (L r) (K p)).
 
     Definition mr_add (r a b : loc) : M unit :=
       ru_add r (L a) (L b) ;;
@@ -137,8 +138,8 @@ Section RecInt.
       if same then ru_mul r (L r) (L a) ;; ru_modn r (L r) (K p)
       else ru_lmul (T 0) (L r) (L a) ;; ru_modn r (L (T 0)) (K p).
 
-    (* div: return mulin( inv(r,b), a ) *)
-    Definition mr_div (r a b : loc) : M unit := mr_inv r b ;; mr_mulin r a.
+    (* div (as repaired): Element ib; return mul(r, a, inv(ib,b)) *)
+    Definition mr_div (r a b : loc) : M unit := mr_inv (T 1) b ;; mr_mul r a (T 1).
 
     (* divin: Element ia; return mulin(r, inv(ia,a)) *)
     Definition mr_divin (r a : loc) : M unit := mr_inv (T 1) a ;; mr_mulin r (T 1).
@@ -158,11 +159,12 @@ Section RecInt.
 
     Definition mr_invin (r : loc) : M unit := mr_inv r r.
 
-    (* _axpy  diff: lmul(tmp,a,b); mod_n(r,tmp,p); add(r,c); if (r >= p) sub(r,p)
-              same: copy(r,c); addmul(r,a,b); mod_n(r,p) *)
+    (* _axpy (as repaired)
+              diff: C tmp; E ab; lmul(tmp,a,b); mod_n(ab,tmp,p); add(r,ab,c); if (r >= p) sub(r,p)
+              same: E tmp; copy(tmp,c); addmul(tmp,a,b); mod_n(r,tmp,p) *)
     Definition mr_axpy (r a b c : loc) : M unit :=
-      if same then ru_copy r (L c) ;; ru_addmul r (L a) (L b) ;; ru_modn r (L r) (K p)
-      else ru_lmul (T 0) (L a) (L b) ;; ru_modn r (L (T 0)) (K p) ;; ru_add r (L r) (L c) ;;
+      if same then ru_copy (T 0) (L c) ;; ru_addmul (T 0) (L a) (L b) ;; ru_modn r (L (T 0)) (K p)
+      else ru_lmul (T 0) (L a) (L b) ;; ru_modn (T 6) (L (T 0)) (K p) ;; ru_add r (L (T 6)) (L c) ;;
            g <- ru_ge (L r) (K p) ;; when g (ru_sub r (L r) (K p)).
 
     (* _axpyin diff: E tmp = r; return r = _axpy(r,a,b,tmp,p)     same: addmul(r,a,b); mod_n(r,p) *)
@@ -170,17 +172,18 @@ Section RecInt.
       if same then ru_addmul r (L a) (L b) ;; ru_modn r (L r) (K p)
       else ru_copy (T 3) (L r) ;; mr_axpy r a b (T 3).
 
-    (* maxpy: _mul(r,a,b); sub(r,c,r) *)
-    Definition mr_maxpy (r a b c : loc) : M unit := mr_mul r a b ;; mr_sub r c r.
+    (* maxpy (as repaired): Element ab; _mul(ab,a,b); sub(r,c,ab) *)
+    Definition mr_maxpy (r a b c : loc) : M unit := mr_mul (T 7) a b ;; mr_sub r c (T 7).
 
-    (* axmy: _mul(r,a,b); subin(r,c) *)
-    Definition mr_axmy (r a b c : loc) : M unit := mr_mul r a b ;; mr_subin r c.
+    (* axmy (as repaired): Element ab; _mul(ab,a,b); sub(r,ab,c) *)
+    Definition mr_axmy (r a b c : loc) : M unit := mr_mul (T 7) a b ;; mr_sub r (T 7) c.
 
     (* _maxpyin diff: E tmp; _mul(tmp,a,b); if (r < tmp) { sub(tmp,p,tmp); add(r,tmp) } else sub(r,tmp)
-                same: negin-like; addmul(r,a,b); mod_n(r,p); negin-like *)
+                same (as repaired): E tmp; tmp = -r; addmul(tmp,a,b); mod_n(r,tmp,p); negin-like *)
     Definition mr_maxpyin (r a b : loc) : M unit :=
       if same then
-        mr_negin r ;; ru_addmul r (L a) (L b) ;; ru_modn r (L r) (K p) ;; mr_negin r
+        (z <- ru_is0 (L r) ;; if z then ru_reset (T 0) else ru_sub (T 0) (K p) (L r)) ;;
+        ru_addmul (T 0) (L a) (L b) ;; ru_modn r (L (T 0)) (K p) ;; mr_negin r
       else
         mr_mul (T 4) a b ;;
         c <- ru_lt (L r) (L (T 4)) ;;
@@ -207,10 +210,11 @@ Section RecInt.
     Definition mg_mul (r : loc) (a b : arg) : M unit := ru_lmul (T 0) a b ;; mg_reduc r (L (T 0)).
     Definition mg_mulin (r : loc) (a : arg) : M unit := ru_lmul (T 0) (L r) a ;; mg_reduc r (L (T 0)).
 
+    (* sub (as repaired): const bool lt = (a < b); sub(r,a,b); if (lt) add(r,_p) *)
     Definition mg_sub (r a b : loc) : M unit :=
       c <- ru_lt (L a) (L b) ;;
-      if c then ru_sub r (K p) (L b) ;; ru_add r (L r) (L a)
-      else ru_sub r (L a) (L b).
+      ru_sub r (L a) (L b) ;;
+      when c (ru_add r (L r) (K p)).
 
     Definition mg_add (r a b : loc) : M unit :=
       c <- ru_addc r (L a) (L b) ;; g <- ru_ge (L r) (K p) ;;
@@ -221,7 +225,8 @@ Section RecInt.
 
     (* inv: inv_mod(r,a,_p); return mulin(r,_r3) *)
     Definition mg_inv (r a : loc) : M unit := ru_invmod r (L a) (K p) ;; mg_mulin r (K r3).
-    Definition mg_div (r a b : loc) : M unit := mg_inv r b ;; mg_mulin r (L a).
+    (* div (as repaired): Element ib; return mul(r, a, inv(ib,b)) *)
+    Definition mg_div (r a b : loc) : M unit := mg_inv (T 1) b ;; mg_mul r (L a) (L (T 1)).
     Definition mg_divin (r a : loc) : M unit := mg_inv (T 1) a ;; mg_mulin r (L (T 1)).
 
     Definition mg_addin (r a : loc) : M unit :=
@@ -237,11 +242,12 @@ Section RecInt.
       z <- ru_is0 (L r) ;; if z then ru_reset r else ru_sub r (K p) (L r).
     Definition mg_invin (r : loc) : M unit := mg_inv r r.
 
-    Definition mg_axpy (r a b c : loc) : M unit := mg_mul r (L a) (L b) ;; mg_addin r c.
+    (* axpy / maxpy / axmy (as repaired): Element ab; mul(ab,a,b); add(r,ab,c) / sub(r,c,ab) / sub(r,ab,c) *)
+    Definition mg_axpy (r a b c : loc) : M unit := mg_mul (T 4) (L a) (L b) ;; mg_add r (T 4) c.
     Definition mg_axpyin (r a b : loc) : M unit := mg_mul (T 3) (L a) (L b) ;; mg_addin r (T 3).
-    Definition mg_maxpy (r a b c : loc) : M unit := mg_mul r (L a) (L b) ;; mg_sub r c r.
+    Definition mg_maxpy (r a b c : loc) : M unit := mg_mul (T 4) (L a) (L b) ;; mg_sub r c (T 4).
     Definition mg_maxpyin (r a b : loc) : M unit := mg_mul (T 3) (L a) (L b) ;; mg_subin r (T 3).
-    Definition mg_axmy (r a b c : loc) : M unit := mg_mul r (L a) (L b) ;; mg_subin r c.
+    Definition mg_axmy (r a b c : loc) : M unit := mg_mul (T 4) (L a) (L b) ;; mg_sub r (T 4) c.
     Definition mg_axmyin (r a b : loc) : M unit := mg_mul (T 3) (L a) (L b) ;; mg_sub r (T 3) r.
   End MontgomeryRuint.
 End RecInt.
@@ -295,32 +301,45 @@ Definition Int_axmy (res a x b : loc) : M unit :=
        else I_mul res (L a) (L x) ;; I_sub res (L res) (L b).
 
 (* ------------------------------------------------------------------ gmp++_int_gcd.C *)
-(* Integer& gcd(g,u,v,a,b):  v = 1; mpz_gcdext(g,u,v,a,b); if (g < 0) { negin(u); negin(v); negin(g) } *)
+(* Integer& gcd(g,u,v,a,b) (as repaired: no "v = 1" first):
+   mpz_gcdext(g,u,v,a,b); if (g < 0) { negin(u); negin(v); negin(g) } *)
 Definition Int_gcd5 (g u v a b : loc) : M unit :=
-  stor v 1 ;;
   I_gcdext g u v (L a) (L b) ;;
   n <- I_neg0 (L g) ;; when n (Int_negin u ;; Int_negin v ;; Int_negin g).
 (* Integer gcd(u,v,a,b): same with a local Res (T 6), returned by value *)
 Definition Int_gcd4 (u v a b : loc) : M Z :=
-  stor v 1 ;;
   stor (T 6) 1 ;;
   I_gcdext (T 6) u v (L a) (L b) ;;
   n <- I_neg0 (L (T 6)) ;; when n (Int_negin u ;; Int_negin v ;; Int_negin (T 6)) ;;
   load (T 6).
 
 (* ------------------------------------------------------------------ gmp++_int_div.C *)
-(* divmod(q,r,a,b): mpz_tdiv_qr(q,r,a,b); if (r < 0) { if (b > 0) { q -= 1; r += b } else { q += 1; r -= b } } *)
+(* divmod(q,r,a,b) (as repaired): if (b > 0) mpz_fdiv_qr(q,r,a,b); else mpz_cdiv_qr(q,r,a,b) *)
+Definition I_fdiv_qr (q r : loc) (a b : arg) : M unit :=
+  x <- rd a ;; y <- rd b ;; stor q (x / y) ;; stor r (x mod y).
+Definition I_cdiv_qr (q r : loc) (a b : arg) : M unit :=
+  x <- rd a ;; y <- rd b ;; stor q (- ((- x) / y)) ;; stor r (x + ((- x) / y) * y).
 Definition Int_divmod (q r a b : loc) : M unit :=
-  I_tdiv_qr q r (L a) (L b) ;;
-  n <- I_neg0 (L r) ;;
-  when n (vb <- load b ;;
-          if 0 <? vb then I_sub q (L q) (K 1) ;; I_add r (L r) (L b)
-          else I_add q (L q) (K 1) ;; I_sub r (L r) (L b)).
+  vb <- load b ;;
+  if 0 <? vb then I_fdiv_qr q r (L a) (L b) else I_cdiv_qr q r (L a) (L b).
+
+(* divmod(q, int64_t& r, a, int64_t b) (as repaired: a < 0 is read before q is written):
+   aneg = a < 0; r = mpz_tdiv_q_ui(q, a, |b|); if (aneg && r) { q -= 1; r = |b| - r }; if (b < 0) negin(q)
+   divmod(q, uint64_t& r, a, uint64_t b): the same without the last step (sg = false) *)
+Definition Int_divmod_w (sg : bool) (q a : loc) (b : Z) : M Z :=
+  n <- I_neg0 (L a) ;;
+  x <- load a ;;
+  stor q (Z.quot x (Z.abs b)) ;;
+  let r := Z.abs (Z.rem x (Z.abs b)) in
+  (if n && negb (r =? 0) then I_sub q (L q) (K 1) else skip) ;;
+  (if sg && (b <? 0) then I_neg q (L q) else skip) ;;
+  ret (if n && negb (r =? 0) then Z.abs b - r else r).
 
 (* ------------------------------------------------------------------ gmp++_int_pow.C *)
-(* powmod(Res,n,int64 e,m): if (e < 0) { inv(Res,n,m); powmod(Res,Res,|e|,m) } else powmod(Res,n,e,m) *)
+(* powmod(Res,n,int64 e,m): if (e < 0) { inv(ninv,n,m); powmod(Res,ninv,|e|,m) } else powmod(Res,n,e,m)
+   (as repaired: the inverse goes to a local Integer ninv) *)
 Definition Int_powmod (res n : loc) (e : Z) (m : loc) : M unit :=
-  if e <? 0 then I_invert res (L n) (L m) ;; I_powm res (L res) (Z.abs e) (L m)
+  if e <? 0 then I_invert (T 7) (L n) (L m) ;; I_powm res (L (T 7)) (Z.abs e) (L m)
   else I_powm res (L n) e (L m).
 
 (* ================================================================== modular-integer.inl *)
@@ -363,13 +382,15 @@ Definition den (r : rat) := snd r.
 
 Definition Q_neg (r a : rat) : M unit := I_neg (num r) (L (num a)) ;; I_set (den r) (L (den a)).
 Definition Q_negin (r : rat) : M unit := I_neg (num r) (L (num r)).
-Definition Q_inv (r a : rat) : M unit :=
-  n <- I_neg0 (L (num a)) ;;
-  I_set (num r) (L (den a)) ;; I_set (den r) (L (num a)) ;;
-  when n (Int_negin (num r) ;; Int_negin (den r)).
 Definition Q_invin (r : rat) : M unit :=
   n <- I_neg0 (L (num r)) ;;
   x <- load (num r) ;; y <- load (den r) ;; stor (num r) y ;; stor (den r) x ;;      (* std::swap *)
+  when n (Int_negin (num r) ;; Int_negin (den r)).
+(* inv(r,a): if (&r == &a) return invin(r);  (4bcc635) *)
+Definition Q_inv (r a : rat) : M unit :=
+  if loc_eqb (num r) (num a) then Q_invin r else
+  n <- I_neg0 (L (num a)) ;;
+  I_set (num r) (L (den a)) ;; I_set (den r) (L (num a)) ;;
   when n (Int_negin (num r) ;; Int_negin (den r)).
 (* r = a op b through the by-value operators: the result is built in a temporary Rational, then assigned *)
 Definition Q_byvalue2 (f : Z -> Z -> Z -> Z -> Z * Z) (r a b : rat) : M unit :=
@@ -378,7 +399,7 @@ Definition Q_byvalue2 (f : Z -> Z -> Z -> Z -> Z * Z) (r a b : rat) : M unit :=
   I_set (num r) (L (T 100)) ;; I_set (den r) (L (T 101)).
 
 (* Rational::operator+= / -= (givrataddsub.C), flags = Reduce.  sg = 1 for +=, -1 for -= *)
-Definition Rat_pluseq (sg : Z) (t r : rat) : M unit :=
+Definition Rat_pluseq_body (sg : Z) (t r : rat) : M unit :=
   rn <- load (num r) ;;
   if rn =? 0 then skip else                                   (* isZero(r) *)
   tn <- load (num t) ;;
@@ -406,6 +427,12 @@ Definition Rat_pluseq (sg : Z) (t r : rat) : M unit :=
     (y <- load (den t) ;; stor (den t) (Z.quot y d1)) ;;
     I_mul (den t) (L (den t)) (L (den r)) ;;
     (y <- load (den t) ;; stor (den t) (Z.quot y d2)).
+
+(* if (&r == this) return *this += Rational(r);   (36986de) *)
+Definition Rat_pluseq (sg : Z) (t r : rat) : M unit :=
+  if loc_eqb (num t) (num r) then
+    I_set (T 102) (L (num r)) ;; I_set (T 103) (L (den r)) ;; Rat_pluseq_body sg t (T 102, T 103)
+  else Rat_pluseq_body sg t r.
 
 (* ================================================================== Z-level wrappers for extraction *)
 (* positions of an operation are given as class indices (positive): equal index = same object *)
@@ -473,6 +500,9 @@ Definition run_gcd4 (iu iv ia ib : positive) (vu vv va vb : Z) : list Z :=
 Definition run_divmod (iq ir ia ib : positive) (vq vr va vb : Z) : list Z :=
   let h0 := mk4 iq ir ia ib vq vr va vb in
   dump4 (exec (Int_divmod (U iq) (U ir) (U ia) (U ib)) h0) iq ir ia ib.
+Definition run_divmod_w (sg : bool) (iq ia : positive) (vq va b : Z) : list Z :=
+  let h0 := upd (upd (fun _ => 0) (U ia) va) (U iq) vq in
+  let '(r, h) := Int_divmod_w sg (U iq) (U ia) b h0 in [h (U iq); h (U ia); r].
 Definition run_powmod (ir inn im : positive) (vr vn e vm : Z) : list Z :=
   let h0 := mk4 ir inn im im vr vn vm vm in
   let h := exec (Int_powmod (U ir) (U inn) e (U im)) h0 in [h (U ir); h (U inn); h (U im)].
